@@ -6,6 +6,7 @@ package ugo
 
 import (
 	"context"
+	"time"
 )
 
 // Eval compiles and runs scripts within same scope.
@@ -89,7 +90,18 @@ func (r *Eval) run(ctx context.Context) (ret Object, err error) {
 		case <-ctx.Done():
 			verifSync(r.VM, "eval.abort")
 			r.VM.Abort()
-			<-doneCh
+			// Run resets the abort flag when it starts, repeat Abort until Run
+			// returns so that an early cancellation is not lost.
+			ticker := time.NewTicker(time.Millisecond)
+			for waiting := true; waiting; {
+				select {
+				case <-doneCh:
+					waiting = false
+				case <-ticker.C:
+					r.VM.Abort()
+				}
+			}
+			ticker.Stop()
 			if err == nil {
 				err = ctx.Err()
 			}
